@@ -96,7 +96,8 @@ func crashChild(args []string) {
 }
 
 var crashTemplates = []string{"put-absent-file", "put-absent-dir", "put-new-entry", "put-overwrite", "delete-one-of-many", "delete-only-entry",
-	"prefix-then-put", "prefix-then-delete", "put-big-document", "delete-noop", "put-colon-username"}
+	"prefix-then-put", "prefix-then-delete", "put-big-document", "delete-noop", "put-colon-username",
+	"put-via-symlink", "delete-via-symlink", "put-same-as-legacy-key"}
 
 func runCrash(i int, rng *rand.Rand) (res worker.Result) {
 	tmpl := crashTemplates[i%len(crashTemplates)]
@@ -169,6 +170,29 @@ func runCrash(i int, rng *rand.Rand) (res worker.Result) {
 		o.bigDocument = true
 		d = genDoc(rng, o)
 		sc.Op = crashOp{Kind: "put", Addr: pool[rng.IntN(len(pool))], Cred: genCred(rng)}
+	case "put-via-symlink":
+		d = genDoc(rng, existing)
+		d.setLink(linkKinds[(i/len(crashTemplates))%len(linkKinds)])
+		sc.Op = crashOp{Kind: "put", Addr: pool[rng.IntN(len(pool))], Cred: genCred(rng)}
+	case "delete-via-symlink":
+		d = genDoc(rng, existing)
+		d.setLink(linkKinds[(i/len(crashTemplates))%len(linkKinds)])
+		sc.Op = crashOp{Kind: "delete", Addr: pickKey(d.Doc)}
+	case "put-same-as-legacy-key":
+		// the bare host has no entry, a legacy URL key holds X: Put(host, X) must create the exact entry
+		d = genDoc(rng, existing)
+		h := toHost(pool[0])
+		a := d.Doc["auths"].(map[string]any)
+		for k := range a {
+			if toHost(k) == h {
+				delete(a, k)
+			}
+		}
+		x := genCred(rng)
+		x.U = "again" + x.U
+		a[forms(h)[1+rng.IntN(len(forms(h))-1)]] = entryFor(x)
+		d.retext()
+		sc.Op = crashOp{Kind: "put", Addr: h, Cred: x}
 	case "delete-noop":
 		d = genDoc(rng, existing)
 		sc.Op = crashOp{Kind: "delete", Addr: "absent.example:9"}
@@ -179,6 +203,9 @@ func runCrash(i int, rng *rand.Rand) (res worker.Result) {
 		sc.Op = crashOp{Kind: "put", Addr: pool[rng.IntN(len(pool))], Cred: c, ExpectErr: true}
 	}
 
+	if d.Link == "" && !d.AbsentDir && rng.IntN(4) == 0 {
+		d.setLink(linkKinds[rng.IntN(len(linkKinds))]) // with an absent document: a dangling link
+	}
 	base, err := os.MkdirTemp("", "verif-c18-crash-")
 	if err != nil {
 		res.Violate("harness:mkdtemp", err.Error(), nil)
@@ -192,7 +219,7 @@ func runCrash(i int, rng *rand.Rand) (res worker.Result) {
 		return
 	}
 	wit := func(extra map[string]any) map[string]any {
-		w := map[string]any{"template": tmpl, "document": string(clip(d.Text, 4000)), "doc_state": d.Shape, "mode": fmt.Sprintf("%o", d.Mode), "script": sc}
+		w := map[string]any{"template": tmpl, "document": string(clip(d.Text, 4000)), "doc_state": d.Shape, "mode": fmt.Sprintf("%o", d.Mode), "config_path_is_symlink": d.Link, "script": sc}
 		for k, v := range extra {
 			w[k] = v
 		}
@@ -293,6 +320,12 @@ func runCrash(i int, rng *rand.Rand) (res worker.Result) {
 	same := oldPresent == newPresent && (!oldPresent || func() bool { k, _ := diffDocs(oldDoc, newDoc, ""); return k == "" }())
 
 	res.Count("crash_cases", 1)
+	if d.Link != "" {
+		res.Count("crash_cases_with_symlinked_config_path", 1)
+		if newPresent && !isLink(pathNew) && m.saves > 0 {
+			res.Count("symlink_replaced_by_regular_file_on_save", 1)
+		}
+	}
 	res.Count("crash_uninterrupted_runs_new_document", 1)
 	res.Observe("crash_syscall_sequences", strings.Join(calls, ","))
 	if count > 0 {
@@ -376,7 +409,7 @@ func runCrash(i int, rng *rand.Rand) (res worker.Result) {
 	res.Evals = 1 + enumerated
 	res.Key = fmt.Sprintf("%s|%s|%s|%s%s", tmpl, d.Shape, strings.Join(calls, ","), formClass(sc.Op.Addr), sc.Op.Cred.class())
 	res.NT = count >= 3 && enumerated == count
-	if i == 3 || i == 4 {
+	if i == 3 || i == 11 {
 		res.Sample = shorten(wit(map[string]any{"phase": "crash", "calls": calls, "crash_points": count}))
 	}
 	return
